@@ -144,10 +144,12 @@ class _OrbitCorrectionService(_DynamicsServiceBase):
                     "residual_norm": result.residual_norm,
                 }
             )
-            self.apply_correction(payload)
             return result.x_corrected, 2 * result.half_period, payload, result
 
         state, period, payload, result = self.get_or_create(cache_key, _factory)
+        # Applied outside the memoised factory so that a cache hit puts the corrected
+        # state and period back as well (e.g. after the caller has overridden the period).
+        self.apply_correction(payload)
         return state, period, result
 
     def apply_correction(self, update: OrbitCorrectionDomainPayload) -> OrbitCorrectionDomainPayload:
